@@ -633,6 +633,8 @@ where
         let raw_value = match value {
             Some(Value::String(s)) => encode_genotype_str(s)?,
             Some(Value::Genotype(genotype)) => encode_genotype(genotype.as_ref())?,
+            // A missing genotype (`.`) is a single missing allele.
+            None => vec![0x00],
             _ => return Err(io::Error::from(io::ErrorKind::InvalidInput)),
         };
 
